@@ -44,6 +44,42 @@ def handleC08 : List String → Option String
     let lims ← (lims.splitOn ",").mapM String.toNat?
     let rs := lims.map fun l => s!"{l}={outcome (m.toWire l pt)}"
     some ("ok " ++ " ".intercalate rs)
+  | "c08.robj" :: ms :: res :: pad :: osz :: tsz :: hm :: rest => do
+    -- the Renderer object route: [reserve] add_question/add_rrset… [release_reserved] add_opt(pad, opt_size, tsig_size)
+    -- write_header add_tsig/add_multi_tsig [write_header]
+    let m ← parseMsgTokens rest
+    let ms ← ms.toNat?
+    let res ← res.toNat?
+    let pad ← pad.toNat?
+    let osz ← osz.toNat?
+    let tsz ← tsz.toNat?
+    let hm ← hm.toNat?
+    let s0 := RState.init m.id m.flags ms m.origin
+    let s1 : Except RErr RState :=
+      if res = 1 then (match s0.reserve osz with | .ok s => s.reserve tsz | .error e => .error e) else .ok s0
+    match s1 with
+    | .error e => some ("err " ++ e.toString)
+    | .ok s =>
+      let (s, tr) := stepsGo s m.items []
+      let s := if res = 1 then s.releaseReserved else s
+      let (s, tr) := match m.opt with
+        | none => (s, tr)
+        | some o =>
+          match s.addOpt o pad osz tsz with
+          | .ok s' => (s', tr ++ [s!"opt:ok:{s'.out.length}"])
+          | .tooBig s' => (s', tr ++ [s!"opt:big:{s'.out.length}"])
+          | .err e => (s, tr ++ ["opt:err:" ++ e.toString])
+      let s := if hm != 1 then s.writeHeader else s
+      let (s, tr) := match m.tsig with
+        | none => (s, tr)
+        | some t =>
+          match s.writeTsig t with
+          | .ok s' => (s', tr ++ [s!"tsig:ok:{s'.out.length}"])
+          | .tooBig s' => (s', tr ++ [s!"tsig:big:{s'.out.length}"])
+          | .err e => (s, tr ++ ["tsig:err:" ++ e.toString])
+      let s := if hm != 0 then s.writeHeader else s
+      some ("ok " ++ " ".intercalate tr ++ s!" out={toHexP s.out} tbl="
+        ++ ";".intercalate (s.tbl.map fun p => showName p.1 ++ "@" ++ toString p.2))
   | "c08.steps" :: ms :: res :: rest => do
     let m ← parseMsgTokens rest
     let ms ← ms.toNat?
